@@ -9,7 +9,12 @@ from collections.abc import AsyncGenerator, Generator
 
 from beartype import beartype
 
-EXC = {0: GeneratorExit, 1: RuntimeError, 2: TypeError, 3: ValueError, 4: KeyError, 5: ZeroDivisionError}
+class Shutdown08(BaseException):
+    pass
+
+
+EXC = {0: GeneratorExit, 1: RuntimeError, 2: TypeError, 3: ValueError, 4: KeyError, 5: ZeroDivisionError, 6: KeyboardInterrupt,
+       7: Shutdown08}
 TAG = {v: k for k, v in EXC.items()}
 
 
